@@ -48,11 +48,15 @@ ListOf(c) ==
 \* element coordinates are a non-contiguous subset of the rod's coordinates);  history: the configuration is
 \* built in a fresh session, or after another system containing a default Maxwell element was simulated and
 \* re-initialised with set_new_initial_state in the same session (objects must not share initial-state arrays)
+\* history "late_add": the system (body and, if registered, the subsystem) was assembled, moved to a new configuration with
+\* set_new_initial_state (the joint rotated / the points moved apart), and only then the law is added and the system assembled
+\* again: the default reference is the value of the scalar coordinate at the CURRENT t0, q0
 Configs == [law : Laws, sub : Subs, reg : Regs, angle0 : {"zero", "nonzero"}, body : {"rigid", "rod"},
-            history : {"fresh", "after_restart"}]
+            history : {"fresh", "after_restart", "late_add"}]
 
 Init == /\ cfg \in {c \in Configs : /\ (c.sub = "TwoPoint" => c.angle0 = "zero")
-                                   /\ (c.body = "rod" => c.sub = "TwoPoint")}
+                                   /\ (c.body = "rod" => c.sub = "TwoPoint")
+                                   /\ (c.history = "late_add" => (c.reg # "after" /\ c.body = "rigid"))}
         /\ order = ListOf(cfg)
         /\ prov = [o \in Objects |-> {}]
         /\ pc = 0 /\ err = "none" /\ lref = "unset"
